@@ -77,6 +77,9 @@ func (g *Graph) buildFrame(fr *Frame, maxDepth int, inline func(*ssa.Function) b
 	for _, b := range fn.Blocks {
 		for i, in := range b.Instrs {
 			n := nodes[in]
+			if IsNoReturnCall(in) {
+				continue // log.Panicf & co never return: no successors
+			}
 			if i+1 < len(b.Instrs) {
 				next := nodes[b.Instrs[i+1]]
 				if call, ok := in.(*ssa.Call); ok {
@@ -421,4 +424,27 @@ func (n *Node) FrameChain() string {
 		parts = append([]string{FuncName(f.Fn)}, parts...)
 	}
 	return strings.Join(parts, ">")
+}
+
+// IsNoReturnCall: calls that never return (panicking / exiting loggers).
+func IsNoReturnCall(in ssa.Instruction) bool {
+	f := CalleeFunc(in)
+	if f == nil || f.Pkg() == nil {
+		return false
+	}
+	switch f.Pkg().Path() {
+	case "log":
+		switch f.Name() {
+		case "Panic", "Panicf", "Panicln", "Fatal", "Fatalf", "Fatalln":
+			return true
+		}
+	case "os":
+		return f.Name() == "Exit"
+	case "github.com/sirupsen/logrus":
+		switch f.Name() {
+		case "Panic", "Panicf", "Panicln", "Fatal", "Fatalf", "Fatalln":
+			return true
+		}
+	}
+	return false
 }
